@@ -212,6 +212,13 @@ class Sim:
         self.threads.append(st)
         if self.policy == "pct":
             st.prio = 1 + self.tape.draw(1000)
+        # the carrier must not keep the thread's function (a bound method of
+        # the program's Thread object) alive while it winds down AFTER having
+        # handed the baton on: whether a finaliser of that object then runs
+        # in the program's thread or in the dying carrier would depend on OS
+        # timing.  The reference is dropped while the baton is still held.
+        box = [fn]
+        del fn
 
         def boot():
             self.by_ident[_thread.get_ident()] = st
@@ -221,7 +228,7 @@ class Sim:
                     raise SimAbort()
                 if self.p_preempt[0] > 0 and self.trace_files:
                     sys.settrace(self._tracer)
-                fn()
+                box.pop()()
             except SimAbort:
                 pass
             except BaseException as e:  # escaped from the simulated code
